@@ -270,7 +270,10 @@ func (c *vSessCtl) senderStable() bool {
 // stabilize waits until the sender is at a gate, parked without a pending wake-up, or gone, and
 // every established connection has its reader goroutine started.
 func (c *vSessCtl) stabilize() bool {
-	ok := c.waitFor(700*time.Millisecond, func() bool { return c.senderStable() && c.nreaders >= c.nconnected }, nil)
+	ok := c.waitFor(700*time.Millisecond, func() bool {
+		// a sender inside connect() whose peer is holding the handshake back will not move either
+		return (c.senderStable() || c.log.holdC != 0) && c.nreaders >= c.nconnected
+	}, nil)
 	if !ok {
 		c.log.mu.Lock()
 		c.desync++
